@@ -5,7 +5,7 @@ import scen_buffer
 import ppar
 import scen_fifo
 
-PROPS = ['Props/C05.lean', 'Props/C05Buffer.lean', 'Legacy/BufferPinned.lean']
+PROPS = ['Props/C05.lean', 'Props/C05Buffer.lean', 'Legacy/BufferPinned.lean', 'Props/Lane.lean', 'Legacy/LaneMultiWriter.lean']
 
 
 def keyfn(case, res, m):
@@ -31,10 +31,11 @@ def run(chk):
 
 
 TRUSTED = [
+    "SingleLane (mpservice/_queues.py) is no longer assumed: lean/MpsVerif/Model/Lane.lean models it at the granularity of its lock operations, Props/Lane.lean proves FIFO / bound / no underflow / no lost wake-up / outcome table and the refinement to the atomic bounded FIFO that Model/Fifo.lean and Model/Buffer.lean use (single writer + single reader, all maxsize, all interleavings), tied to /repo by trace validation (drv lane) of the real SingleLane over the interpreter's own threading.Condition source on every run of ./check C01 and ./check C08 (this check audits those theorems). What remains assumed there: threading.Lock is mutually exclusive; Condition.wait atomically queues the waiter and releases the mutex and re-acquires it before returning; notify() wakes at most one waiter that is in the list at that moment and is not remembered otherwise; no spurious wake-ups (CPython's Condition blocks on a private lock that only notify() releases)",
     'Lean 4.33.0 kernel; axioms per theorem as listed in coverage.obligation_list (subset of propext, Classical.choice, Quot.sound)',
     'hand-written models lean/MpsVerif/Model/Fifo.lean and Model/Buffer.lean, tied to /repo by trace validation (drv fifo / drv buffer, Core.Val.validate_sound) on every run',
     'deterministic scheduler harness/detsched.py (replaces threading primitives, SimpleQueue, clock) and harness/cooploop.py (asyncio selector wait as a cooperative wait)',
-    'modelled not verified: SingleLane / queue.Queue are FIFO with maxsize slots; ThreadPoolExecutor runs <= max_workers calls, cancel() succeeds only before pick-up; Future.result() returns the call\'s own outcome; Thread.is_alive()/join()',
+    'modelled not verified: the stdlib queue.Queue(2) of SyncIter is FIFO with maxsize slots; ThreadPoolExecutor runs <= max_workers calls, cancel() succeeds only before pick-up; Future.result() returns the call\'s own outcome; Thread.is_alive()/join()',
     'SyncIter is validated against the Buffer model with maxsize 2 (its worker drains the queue itself instead of queueing an end mark after a stop; indistinguishable at the observed events)',
     "executor='process': not driven by the scheduler; sampled on real pool processes under the OS schedule (harness/ppar.py, monitors only), otherwise covered by the theorem (the Fifo model does not depend on the kind of executor)",
     'the timed-out poll of the repaired drain loop is a stutter step; liveness assumes the worker thread keeps being scheduled (fairness)',
@@ -55,7 +56,7 @@ def replay(chk, data):
             print(f'VIOLATION property={chk.prop} replay=(replayed)')
             return 1
         return 0
-    scen = 'scen_buffer' if data['case']['kind'] in ('buffer', 'asyncbuffer', 'synciter') else 'scen_fifo'
+    scen = 'scen_buffer' if data['case']['kind'] in ('buffer', 'asyncbuffer', 'synciter') or '+' in data['case']['kind'] else 'scen_fifo'
     res = chk.run_cases(scen, [data['case']])
     case, r = res[0]
     hits = [m for m in r['monitors'] if m['prop'] == chk.prop]
